@@ -739,6 +739,7 @@ TRN_SRC = ["src/Algorithms/GradientDescent/TrustRegionNewton.cpp", "src/Core/Ran
 TRN_RAT_N, TRN_RAT_BITS = 4, 32      # the rational instance replays quadratics up to this dimension whose state numbers have at most that many significant bits
 TRN_CONV_COND = 1.1e4   # the convergence predicate is judged on quadratics up to this condition number (the bound of the property), counted beyond
 TRN_OBS = {}
+TRN_SPREAD = 256       # multiple of the model's own summation-order spread added to the 1e-9 tolerance of a replayed CG step (ratios up to 36 were seen)
 TRN_BUDGET = 200      # steps within which the minimiser of a strictly convex quadratic (cond <= 1e8, radius 1e-3..1e3) must be reached
 
 def trn_header(kind, n, A, b, x0, params, stream="replay", fmt=hx):
@@ -945,22 +946,29 @@ def judge_trn_replay(mout, pre, post, h):
         return cls + "/threshold-rounding-sensitive", None, mon
     # double instance.  The CG iterates of the code (BLAS summation order, fused multiply-adds inside BLAS) and of the model differ by
     # rounding errors that the conjugate-gradient recurrences amplify (2e-8 was seen at condition 1e3, 1e-4 at condition 1e8).  The
-    # driver therefore solves every sub-problem twice, the second time with the coordinates reversed (the same problem, every sum
-    # accumulated in the opposite order): [spread] is how far the model's own step moves under the summation order alone.  Two
-    # steps agree when they differ by at most 1e-9 (relative to max(1, |point|)) + 16 * spread; a step whose spread exceeds 1e-3 of
-    # its length, or whose two model runs leave the CG through different exits, is counted as order-sensitive and not compared
+    # driver therefore solves every sub-problem seven times: with the coordinates reversed / rotated (the same problem, every sum
+    # accumulated in another order) and four times with every entry of gradient and Hessian moved by at most one unit in the last
+    # place: [spread] is the largest distance of these six steps from the model's step, i.e. the sensitivity of the sub-problem
+    # to perturbations of the size of single rounding errors.  Two steps agree when they differ by at most 1e-9 (relative to max(1, |point|))
+    # + TRN_SPREAD * spread (well-conditioned steps: spread ~ 1e-16, the tolerance stays 1e-9); a step whose spread exceeds 1e-3 of
+    # its length, or whose model runs leave the CG through different exits, is counted as order-sensitive and not compared
     spread = fh(m["spread"]); slen = max([abs(v) for v in sol] + [1e-300])
     if not spread <= 1e-3 * slen or m["rexit"] != m["exit"] or m["riters"] != m["iters"]: return cls + "/summation-order-sensitive-not-compared", None, mon
     def close(a, b):
         sc_ = max([1.0] + [abs(v) for v in b])
         if all(abs(x - y) <= TOL * sc_ for x, y in zip(a, b)): return 1
-        if all(abs(x - y) <= TOL * sc_ + 16 * spread for x, y in zip(a, b)): return 2
+        if all(abs(x - y) <= TOL * sc_ + TRN_SPREAD * spread for x, y in zip(a, b)): return 2
         return 0
     metric = 1
     if post["ntrial"] == "1":
         tp = fvec(post["tpt"]); tm = fvec(m["trial"])
         metric = close(tm, tp)
-        if not metric: return cls, "trial point (point + CG step): model (double instance) %s, implementation %s" % (tm, tp), mon
+        if not metric:
+            # beyond the bounded condition of the property the tolerance test of the CG loop itself can go the other way in the code
+            # (seen at condition 1e8: another number of iterations): such a step is counted, not judged; up to condition 1.1e4 it is a disagreement
+            n_ = h["n"]; hs = fvec(pre["hess"]); ev = [abs(x) for x in eigs([hs[i_ * n_:(i_ + 1) * n_] for i_ in range(n_)])]
+            if not (min(ev) > 0 and max(ev) / min(ev) <= TRN_CONV_COND): return cls + "/ill-conditioned-not-compared", None, mon
+            return cls, "trial point (point + CG step): model (double instance) %s, implementation %s" % (tm, tp), mon
     elif m["pred"] not in ("0x0p+0", "-0x0p+0"):
         return cls, "the implementation evaluated nothing (solution.first == 0), the model's predicted change is %s" % m["pred"], mon
     if (m["acc"] == "1") != acc_impl: return cls, "acceptance: model %s (rho = %r), implementation %s" % (m["acc"], rho, acc_impl), mon
@@ -1005,7 +1013,7 @@ def main():
         "stack-content dependence is exposed by running every single line-search call twice after filling 64 KiB of stack with 0xFF bytes resp. the double -1e300",
         "exact rational linear solve in Python for the minimiser of the quadratics",
         "harness/c10_trn.cpp: objective with second derivatives (quadratic with Hessian A, Rosenbrock-type with its analytic Hessian; the evaluation order of value and gradient is the one of harness/c10_opt.cpp), evaluation log (trial point / value of the operator() call of a step), FE_INEXACT cleared before and tested after every single step() call (exact-regime detection for the whole step incl. BLAS calls and std::sqrt)",
-        "TrustRegionNewton replays: the double instance of the extracted tr_step gets the objective values the implementation's objective returned (trial value, evalDerivative result after acceptance) as oracles, so it checks trustRegionCG / borderDistance / errorDifference / the radius and acceptance rules, not the objective; tolerance 1e-9 max(1, |point|) + 16 x spread, spread = distance between the model's CG step and the model's CG step computed with all coordinates reversed (every sum accumulated in the opposite order); steps with spread > 1e-3 |step| or different CG exits of the two orders are counted as summation-order-sensitive and not compared; steps with |rho - threshold| <= 1e-6 or |step|^2 within 1e-6 radius^2 of 0.99 radius^2 are counted as threshold-rounding-sensitive and not compared",
+        "TrustRegionNewton replays: the double instance of the extracted tr_step gets the objective values the implementation's objective returned (trial value, evalDerivative result after acceptance) as oracles, so it checks trustRegionCG / borderDistance / errorDifference / the radius and acceptance rules, not the objective; tolerance 1e-9 max(1, |point|) + 256 x spread, spread = largest distance between the model's CG step and six more runs of the model's CG (coordinates reversed, rotated: every sum accumulated in another order; four times every entry of gradient and Hessian moved by <= 1 ulp); ~1e-16 for well-conditioned steps, so the tolerance is 1e-9 there; steps with spread > 1e-3 |step| or different CG exits of the perturbed runs are counted as summation-order-sensitive and not compared; a step that still differs while its Hessian has |lambda|max / |lambda|min > 1.1e4 (beyond the bounded condition of the property; seen at 1e8: the tolerance test of the CG loop goes the other way) is counted as ill-conditioned-not-compared, up to 1.1e4 it is a disagreement; steps with |rho - threshold| <= 1e-6 or |step|^2 within 1e-6 radius^2 of 0.99 radius^2 are counted as threshold-rounding-sensitive and not compared",
         "TrustRegionNewton rational instance: ocaml/c10_driver.ml converts the doubles exactly, evaluates 1/2 x'Ax - b'x in exact arithmetic and uses for std::sqrt the rounded double root of the (62-bit truncated) argument converted back exactly; sqex = 1 iff every root taken was exact; run for quadratics n <= 4 whose state numbers have at most 32 significant bits"]
     ck.assumptions = [
         "single line-search calls: n <= 4, directions with entries 0, +-1/2, +-1, +-2, 4, start 0 in the moving coordinates, t0 in {0, 1/64, 1/8, 1/4, 1/2, 1, 2}, objective = hash (values k/16 in [-8, 8), gradient entries k/8 in [-4, 4)) or -slope*t up to a threshold <= 1e7 and the hash beyond; 20% of the calls start from a value / derivative that is not the objective's",
